@@ -21,6 +21,18 @@ func RunCase(c *Case) outcome {
 	switch c.Kind {
 	case "seq", "sweep", "long":
 		return guarded(1, func(ws []worker) error { return runSeq(c, ws[0]) })
+	case "fresh":
+		// many fresh loggers under one watchdog
+		if c.Repeat < 1 || c.Repeat > 1<<20 {
+			return outcome{err: fmt.Errorf("harness: kind fresh needs 1 <= repeat <= 2^20")}
+		}
+		o := guarded(len(c.Prods)+len(c.Filts)+1, func(ws []worker) error { return runFresh(c, ws) })
+		if o.err == errBarrier {
+			msg := "C20: goroutines waiting at the spin barrier gave up and no call into go9p is stuck (starved machine or harness trouble)"
+			hx.Inconclusive(msg)
+			return outcome{inconclusive: msg}
+		}
+		return o
 	case "conc", "stall":
 		n := c.Repeat
 		if n < 1 {
@@ -78,6 +90,8 @@ func flushStats() {
 	hx.Extra("long_log_calls", statLongLogs.Load())
 	hx.Extra("stall_filter_calls_while_producing", statStallFilters.Load())
 	hx.Extra("stall_log_calls_blocked_1ms_or_more", statStallLogs.Load())
+	hx.Extra("fresh_loggers_first_used_by_goroutines_released_together", statFreshLoggers.Load())
+	hx.Extra("fresh_cases_barrier_poll_budget_spent", statFreshRelaxed.Load())
 }
 
 // ---------------------------------------------------------------------------
@@ -102,6 +116,10 @@ func replayEnv(t *testing.T, e *hx.Envelope, replay bool) {
 	}
 	if c.Kind == "stall" && replay && c.Repeat < 10 {
 		c.Repeat = 10
+	}
+	if c.Kind == "fresh" && replay && c.Repeat < 20000 {
+		// whether two first calls coincide is up to the machine: many loggers
+		c.Repeat = 20000
 	}
 	hx.Eval()
 	hx.Journal(e.Test, &c)
